@@ -217,6 +217,56 @@ def check_fail_closed(ctx):
                bad_exc.outcome.text(), bad_exc.cond_text()))
 
 
+def check_deny_reasons(ctx):
+    """A name is denied only because the store is empty, the lookup failed,
+    the scope gate said no, or its definition denied; enforce keeps no
+    state of its own."""
+    from ..effects import effects_of
+    from ..enforce_model import scope_gate
+    prog = ctx.prog
+    t = enforce_table(ctx, inline_gate=False)
+    enf = t.enf
+    gate = scope_gate(prog)
+    W = ctx.where(enf.module, enf.node)
+    bad = None
+    for p in t.paths:
+        if p.outcome.kind != 'return' or not is_const(p.outcome.expr,
+                                                      False):
+            continue
+        empty = any(c.kind == 'test' and U(c.expr) == 'self.rules'
+                    and not c.pol for c in p.conds)
+        failed = any(c.kind == 'exc' and 'KeyError' in str(
+            getattr(c.expr, 'value', '')) for c in p.conds)
+        gated = False
+        for c in p.conds:
+            if c.kind == 'test' and not c.pol and isinstance(
+                    c.expr, ast.Name) and isinstance(
+                        t.en.defs.get(c.expr.id), ast.Call) and \
+                    prog.callee_of(enf, t.en.defs[c.expr.id]) is gate:
+                gated = True
+        if not (empty or failed or gated) and bad is None:
+            bad = p
+    ctx.ob('C03.FAIL-CLOSED', bad is None, W, enf.qual,
+           'reasons for a constant denial',
+           'enforce answers a constant False only for an empty store, a '
+           'failed lookup or a failed scope gate' if bad is None else
+           'enforce can deny without consulting the rule store (path: %s): '
+           'a name that is defined may not be decided by its own '
+           'definition' % bad.cond_text()[-300:])
+    effs = [e for e in effects_of(enf)
+            if not (e.kind == 'substore' and e.path == enf.params[3])]
+    effs = [e for e in effs if e.path.split('.')[0].split('[')[0]
+            in ('self',) or e.kind == 'global']
+    ctx.ob('C03.FAIL-CLOSED', not effs, ctx.where(enf.module, effs[0].node)
+           if effs else W, enf.qual,
+           'state written by enforce: %s' % ([U(e.node)[:50] for e in effs]
+                                             or 'none'),
+           'enforce keeps no state between calls' if not effs else
+           'enforce writes enforcer state (%s): what one call remembers '
+           '(e.g. names found undefined) can decide a later call instead '
+           'of the current rule store' % effs[0].path)
+
+
 def check_default_src(ctx):
     prog = ctx.prog
     init = prog.func(POLICY + '.Enforcer.__init__')
@@ -266,12 +316,19 @@ def check_default_src(ctx):
     ctx.floor('C03.DEFAULT-SRC', nsites, 3, 'Rules construction sites')
     # Rules.__init__ keeps it; load/from_dict forward it
     rinit = prog.func(RULES + '.__init__')
-    keeps = any(isinstance(n, ast.Assign) and any(
-        self_attr(t) == 'default_rule' for t in n.targets) and U(
-            n.value) == 'default_rule' for n in ast.walk(rinit.node))
+    tr = Table(prog, rinit)
+    keeps = bool(tr.paths)
+    for p in tr.paths:
+        st = [e for e in p.events if e.kind == 'store'
+              and U(e.node) == 'self.default_rule']
+        if len(st) != 1 or U(tr.expand(st[0].value)) != 'default_rule':
+            keeps = False
     ctx.ob('C03.DEFAULT-SRC', keeps, ctx.where(rinit.module, rinit.node),
-           rinit.qual, 'Rules.__init__', 'stores the default rule' if keeps
-           else 'Rules.__init__ does not store its default_rule argument')
+           rinit.qual, 'Rules.__init__', 'stores the default rule it is '
+           'given, on every path' if keeps else
+           'Rules.__init__ does not store exactly its default_rule argument '
+           'on every path: a store can end up with a default rule the '
+           'enforcer never configured')
     for name in ('load', 'from_dict'):
         f = prog.func(RULES + '.' + name)
         fw = False
@@ -307,4 +364,5 @@ def check(ctx):
     check_no_override(ctx)
     check_raise_catch(ctx)
     check_fail_closed(ctx)
+    check_deny_reasons(ctx)
     check_default_src(ctx)
